@@ -54,9 +54,13 @@ def run(eng, tier):
                 eng.ob(p.pos(('is', ('uuid_parse', M(v, idf)), 'Ok')) is not None, PROP, 'dispatch', v + ':id-validated', '%s does not validate the id as a UUID (either form)' % v)
     # "fails for orders that have been completely filled, cancelled, expired or rejected": an exhausted order leaves the maps the queries read
     from book import remove_iff_zero
+    from invariants import check_I4
     nrz = 0
     for v in ('ExecuteMatch', 'ExpireAsk', 'RejectAsk', 'CancelBid', 'ExpireBid', 'RejectBid', 'CancelAsk'):
-        for p in eng.paths('execute', 'ok', v): nrz += remove_iff_zero(eng, PROP, p)
+        for p in eng.paths('execute', 'ok', v):
+            nrz += remove_iff_zero(eng, PROP, p)
+            # "the amounts reported for an order are those a cancel would return": the recorded unspent quote stays price x unfilled size
+            check_I4(eng, PROP, p)
     refs = Refusals(eng, 'query')
     for v, (ns, idf) in TABLE.items():
         T = [('id-not-a-uuid', 'L', lambda e, v=v, idf=idf: idf is not None and e['fact'] == ('is', ('uuid_parse', M(v, idf)), 'Err')),
